@@ -48,6 +48,9 @@ Q13 = [("stream", 30000), ("lifecycle", 10000), ("owning", 6000)]
 Q14 = [("liveness", 30000), ("lifecycle", 10000), ("handles", 6000)]
 Q15 = [("kinds", 30000), ("handles", 12000), ("restart", 4000), ("lifecycle", 4000)]
 
+Q06 = [("faults+faults", 700), ("tree+faults", 500), ("svcfaults+faults", 300), ("lifecycle+faults", 300)]
+Q16 = [("tree", 30000), ("tree+faults", 300), ("faults", 4000)]
+
 PLANS = {
     "C01": plan(Q01, scale(Q01, 40),
                 ">=2 clients submitted and both the waiting and the forcing path were used",
@@ -99,4 +102,21 @@ PLANS = {
                 "a context operation, weak upgrade or timer was observed while neither an Addr nor an OwningAddr was alive",
                 ["C15.R1.ctx_stop_ok", "C15.R2.ctx_restart_ok", "C15.R3.timers_keep_firing", "C15.R4.upgrade_while_strong",
                  "C15.R5.same_actor_through_conversions"]),
+    "C06": plan(Q06, scale(Q06, 40),
+                "a fault was injected and hit (every run except the fault-free base run of each program)",
+                ["C06.R1.ops_resolved", "C06.R1.later_ops_err", "C06.R1.pending_ops_err", "C06.R2.await_err", "C06.R2.join_none",
+                 "C06.R2.no_activity_after_fault", "C06.R3.timers_silent_after_end", "C06.R3.timer_tasks_end", "C06.R4.children_released",
+                 "C06.R5.registry_respawns", "C06.R5.try_from_registry_never_dead", "C06.R5.register_succeeds",
+                 "C06.R6.bystander_unaffected", "C06.R6.bystander_calls_ok", "C06.R6.caller_of_failed_sees_error_only"],
+                {"rule": "fault enumeration: for every base program of the families (victim with timers + child + bystander + pending client ops; actor trees; "
+                         "service victims; random lifecycle programs) and its schedule seed, the fault-free run is executed first, then ONE RUN PER SINGLE FAULT: "
+                         "a panic at every callback entry the fault-free run made on every victim (started / each handler / stopped / finished), an Err at every "
+                         "started entry, and a cancellation after every poll of the victim's loop task (thorough adds sampled ordered pairs on different actors); "
+                         "coverage.counters.fault_table.* = runs per kind@position class, fault_table_hit.* = runs in which the fault actually fired; "
+                         "distinct = distinct trace hash; non-trivial = a fault fired"}),
+    "C16": plan(Q16, scale(Q16, 40),
+                "a parent with at least one registered child terminated, or a broadcast was sent to registered children",
+                ["C16.R1.child_outlives_until_parent_ends", "C16.R2.released_child_stops_gracefully", "C16.R2.accepted_messages_handled",
+                 "C16.R2.child_held_outside_keeps_running", "C16.R3.broadcast_exactly_once", "C16.R3.only_registered_children",
+                 "C16.R3.not_to_other_types", "C16.R3.unit_broadcast_count"]),
 }
